@@ -444,16 +444,27 @@ def history(seed, steps):
                 target = owners.get(dest) or [p for p in live if p.name == dest][0]
                 kind = rnd.randrange(4)
                 body = ['payload-%d' % counter[0]]
+                bsig = 's'
+                if rnd.random() < 0.5:
+                    # typed values inside variants (property tables): passed on with the types they were sent with
+                    from txdbus import marshal as _ms
+                    typed = rnd.choice([_ms.UInt64(2**40), _ms.UInt32(2**31 + 5), _ms.UInt16(5), _ms.Int64(-2**40), _ms.ObjectPath('/x/y'), _ms.Signature('a{sv}'), _ms.Byte(200), 1.5, True])
+                    if rnd.random() < 0.5:
+                        bsig, body = 'sv', body + [typed]
+                    else:
+                        bsig, body = 'sa{sv}', body + [{'k': typed, 'plain': 7}]
                 if kind == 0:
-                    m = message.MethodCallMessage('/o', 'M', interface='org.e.I0', destination=dest, signature='s', body=body)
+                    m = message.MethodCallMessage('/o', 'M', interface='org.e.I0', destination=dest, signature=bsig, body=body)
                 elif kind == 1:
                     rs = rnd.choice([77, 1, 2**31 - 1, 2**31, 2**32 - 1])       # any serial a caller may have used (UINT32)
-                    m = message.MethodReturnMessage(rs, destination=dest, signature='s', body=body)
+                    m = message.MethodReturnMessage(rs, destination=dest, signature=bsig, body=body)
                 elif kind == 2:
                     rs = rnd.choice([77, 1, 2**31 - 1, 2**31, 2**32 - 1])
-                    m = message.ErrorMessage('org.e.Err', rs, destination=dest, signature='s', body=body)
+                    m = message.ErrorMessage('org.e.Err', rs, destination=dest, signature=bsig, body=body)
                 else:
-                    m = message.SignalMessage('/o', 'S', 'org.e.I0', destination=dest, signature='s', body=body)
+                    m = message.SignalMessage('/o', 'S', 'org.e.I0', destination=dest, signature=bsig, body=body)
+                if rnd.random() < 0.25:
+                    m.endian = ord('B')                   # a big-endian sender
                 m.sender = ':1.999'                       # forged
                 # header flags are part of the message whatever its type: forwarded as they were sent
                 m.expectReply = rnd.random() < 0.6
@@ -474,10 +485,13 @@ def history(seed, steps):
                         if (x.expectReply, x.autoStart) != (m.expectReply, m.autoStart):
                             return 'step %d: message of type %d sent with the flags expectReply=%r autoStart=%r arrived with %r %r' % (
                                 step, kind + 1, m.expectReply, m.autoStart, x.expectReply, x.autoStart)
+                        if m.rawBody and not x._wire.endswith(m.rawBody):
+                            return 'step %d: the body of a forwarded message (signature %r, %s-endian sender) differs from what was sent: sent %s, delivered %s' % (
+                                step, bsig, 'big' if m.endian == ord('B') else 'little', m.rawBody.hex(), x._wire[-len(m.rawBody):].hex())
                         if kind in (1, 2) and x.reply_serial != rs:
                             return 'step %d: a reply to serial %d delivered as a reply to %r' % (step, rs, x.reply_serial)
                         # unchanged except for the sender: the reply-serial header keeps its wire type (UINT32)
-                        if kind in (1, 2) and b'\x05\x01u\x00' not in x._wire[:x._wire.index(b'payload')]:
+                        if kind in (1, 2) and m.endian == ord('l') and b'\x05\x01u\x00' not in x._wire[:x._wire.index(b'payload')]:
                             return 'step %d: the reply serial of a forwarded reply is not written as UINT32: %s' % (step, x._wire[:64].hex())
             elif op == 'bcast':
                 counter[0] += 1
